@@ -35,6 +35,13 @@ def main():
            "mini", "--seed", "0", "--budget", "1", "--out", out]
     p = subprocess.run(cmd, cwd=vlib.HARNESS, env=env, stdout=subprocess.PIPE, stderr=subprocess.STDOUT, text=True,
                        timeout=3000)
+    unavailable = ("no such command: `miri`", "is not installed", "failed to build sysroot", "cargo miri setup",
+                   "can't find crate for `std`", "error: toolchain")
+    if p.returncode != 0 and "Undefined Behavior" not in p.stdout and any(u in p.stdout for u in unavailable):
+        # the interpreter itself cannot start here: say so instead of blaming the code under test
+        print(f"Miri ({label}): NOT RUN - the interpreter is unavailable in this environment:")
+        print("\n".join(p.stdout.splitlines()[-6:]))
+        return 0
     if p.returncode != 0:
         lines = p.stdout.splitlines()
         keep = [l for l in lines if l.startswith("error") or "Undefined Behavior" in l or l.strip().startswith("--> ")
